@@ -248,6 +248,35 @@ def rotate_feats(feats, n, k):
     return out
 
 
+def site_instance(rng, site):
+    """a concrete spelling of a (possibly degenerate) recognition site"""
+    return "".join(rng.choice(IUPAC[c]) for c in site)
+
+
+def real_part_word(rng, enz, kind, up, down, tries=200):
+    """A plasmid that is, by the enzyme's own geometry, a part with upstream overhang `up` and downstream overhang
+    `down` for cutter `enz` — built from Bio.Restriction's numbers only (site, fst5/fst3, overhang length and side),
+    never from a structure pattern of the library: a concrete spelling of the site, the cut `off` letters further,
+    the overhangs where the enzyme leaves them, the second site on the other strand.  Exactly two sites (counted
+    by Bio.Restriction's own search, which knows the ambiguity codes).  None if no such word is found."""
+    from Bio.Seq import Seq
+    site = enz.site
+    off = (enz.fst5 - len(site)) if enz.is_5overhang() else enz.fst3
+    if off < 0:
+        return None
+    for _ in range(tries):
+        f = site_instance(rng, site)
+        r = rc(site_instance(rng, site))
+        if kind == "M":
+            wd = f + rnd(rng, off) + up + rnd(rng, rng.randint(2, 12)) + down + rnd(rng, off) + r + rnd(rng, rng.randint(2, 10))
+        else:
+            wd = rnd(rng, 1) + down + rnd(rng, off) + r + rnd(rng, rng.randint(0, 8)) + f + rnd(rng, off) + up + \
+                rnd(rng, rng.randint(3, 12))
+        if len(enz.search(Seq(wd), linear=False)) == 2:
+            return wd
+    return None
+
+
 # ---------------------------------------------------------------- patterns
 def tokens(pat):
     """DNA regex syntax -> list of ('cls', c) | ('star', c, greedy) | ('open',) | ('close',).
